@@ -12,100 +12,166 @@ Definition show_fres (r : fres) : string :=
   end.
 Definition check (rs : list rune) : string := digest (show_fres (format_res rs)).
 Definition full (rs : list rune) : string := show_fres (format_res rs).
-Eval vm_compute in ("<<<M263>>>" ++ check (runes_of_ascii "
-packet Z9_ //x
-{ @calculatedFrom( ""1"" )
-match
-body as u8x{ [ 7 ] :
-u ,
-[7
-,00, ""a\""b""
-, """" , ""\n"" , 00
-] : charz , 1	: // c
-Packet
-, """ ++ [28040; 24687]%N ++ runes_of_ascii """ :
-f32a ,  00 : // trailing space 
-len } ,@lengthOf(calculatedFrom )	MetaDataX
-    , Packet	@lengthOf(
-    int ) , repeat // `tick` ""quote"" 'q'
-char[ 7 ]calculatedFrom, @calculatedFrom(""a\\"" ) zchar[ //
-255 // " ++ [128512]%N ++ runes_of_ascii " emoji
-] f32a @calculatedFrom( """ ++ [233]%N ++ runes_of_ascii "t" ++ [233]%N ++ runes_of_ascii """ ) ,	@calculatedFrom( ""a\""b"" // packet A { u8 x, }
-)char[7
-    //	t
-    ] i8i8 @calculatedFrom(""a\\"") `crlf
-line` ,zchar[
-    0123456789	]
-x `line1
-line2`
-,@leftPad () repeat
-u64 stringy , @lengthOf( x	) repeat
-body
-{//	t
-Z9_ {
-repeat asx , repeat crc i64_ // " ++ [27880; 37322]%N ++ runes_of_ascii "
-, repeat rootA { repeat rootA MetaDataX `line1
-line2`
-    // `tick` ""quote"" 'q'
-    ,match
-i64_ as
-calculatedFrom {
-    7
-:
-x[ 7 ] : stringy , ""1"": i8i8 , [
-""1"" , 42 ,
-// trailing space 
-/// triple
-""" ++ [233]%N ++ runes_of_ascii "t" ++ [233]%N ++ runes_of_ascii """ , 10 ,
-255 , 0 , 10 ]
-: u ,
-""x y""
-:
-    i8i8 }
-// `tick` ""quote"" 'q'
-//x
-,uint64 _x `
-` ,char[ 0 ] i64_ @calculatedFrom( ""CRC32""
-)
-    , }, x_y_z {
-char[] T
-// a // b
-// @lengthOf(
-,} ,} ,repeat  u64 Foo `a\`,
-    uint8
-uint8x,
-match
-//	t
-// trailing space 
-roots
-as chars {1
-    : _x ""a\""b"" :uint8x, 42 : metadata // " ++ [128512]%N ++ runes_of_ascii " emoji
-, // `tick` ""quote"" 'q'
-[// @lengthOf(
-""\n"" ,
-255]
-: zchar
-[ """ ++ [233]%N ++ runes_of_ascii "t" ++ [233]%N ++ runes_of_ascii """ ,3
-, 4294967296 ,// trailing space 
-0123456789 , ""x y"" ] : metadata[ // c
-""it's"" , ""// no comment""
-]  :Z9_
-    , }
-,	}
-    , } // a // b
-MetaData rootA	{ char[ 4294967296 ] msg_type,// @lengthOf(
-char[]  u128, uint64 a1 , int8 crc , Pad
-    msg_type `doc`
+Eval vm_compute in ("<<<M1657>>>" ++ check (runes_of_ascii "
+// top
+
+options  
+  // c0
+      {  // c1a
+	// c1b
+
+LittleEndian 
+// c2
+  =	// c3a
+    // c3b
+	false 
+
+// c4
+; ArrayPrefixLenType=  // c7a
+
+	// c7b
+u8  
+  // c8
+;// c9
+FixedStringPadFromLeft	// c10a
+
+	// c10b
+	=// c11
+
+  true 
+;	// c13
+    FixedStringPadChar 
+        // c14
+
+	=
+'0' 	 // c16
+      ;
+
+    // c17
+		}  // c18
+	packet 
+    // c19
+  Heartbeat{ 
+	// c21
+	  string	lastPx
+	, uint8  // c25
+  	Qty
+, 
+    // c27
+	i64 	 // c28a
+    // c28b
+    Acct 
+
+    // c29
+	  ,  
+      // c30
+    char[// c31
+
+4
+
+    ]  // c33
+	Ref	// c34
+		, 	 // c35
+  	} packet // c37
+Fill  // c38
+      {	// c39
+
+uint8 	 // c40a
+  	// c40b
+	Ref 	 // c41
+    ,	Heartbeat 	 // c43
+  , 	 // c44a
+      // c44b
+	f32  // c45
+  OrderId, // c47
+		repeat	f32 	 // c49
+x 
+      // c50
+,// c51a
+  // c51b
+}	root
+packet Order
+// c55
+    {// c56a
+      // c56b
+      zchar[
+    // c57
+  2 // c58
+]// c59a
+
+// c59b
+	OrderId ,  
+      // c61
+	zchar[ // c62a
+
+// c62b
+2 ] 
+    // c64
+    Acct 
+// c65
 ,
-}
-//	t
-/// triple
-packet x_y_z
-    {@lengthOf( crc) match packetx as f32a	{ 0123456789:A
-,	00 :	u // @lengthOf(
-}, }
+// c66
+	zchar[	// c67
+	1  ] // c69
+Note // c70a
+	// c70b
+  ,
+    // c71
+  zchar[ 
+        // c72
+	  9 	 // c73
+] Qty // c75a
+	  // c75b
+
+  , // c76a
+    // c76b
+    string price// c78
+  , // c79
+	string // c80a
+
+// c80b
+  tag7 
+	// c81
+, 	 // c82a
+	// c82b
+u32 
+
+    // c83
+
+	x
+    // c84
+  ,  // c85a
+	// c85b
+match  // c86
+	  x as 	 // c88
+	Body  // c89
+
+{  // c90
+123  // c91
+  :  // c92a
+    	// c92b
+Fill , 	 // c94a
+	// c94b
+112 // c95a
+	// c95b
+  :// c96a
+// c96b
+  Heartbeat
+	, 	 // c98
+  } // c99
+  ,	// c100
+  u32 seqNo
+    // c102
+	@calculatedFrom( 	 // c103
+	  ""CRC32"" 	 // c104
+    )  
+      // c105
+
+  ,
+    // c106
+    }  // c107
 ")).
-Eval vm_compute in ("<<<M1824>>>" ++ check (runes_of_ascii "// a // b
+Eval vm_compute in ("<<<M1826>>>" ++ check (runes_of_ascii "// a // b
     	packet
 
 stringy
@@ -228,7 +294,7 @@ line2`
     ,}// packet A { u8 x, }
  
 ")).
-Eval vm_compute in ("<<<M1724>>>" ++ check (runes_of_ascii "
+Eval vm_compute in ("<<<M1728>>>" ++ check (runes_of_ascii "
 packet pack {@lengthOf(Foo 
 
 // c
@@ -345,78 +411,68 @@ u32
 
 }packet
 	f32a{ } ")).
-Eval vm_compute in ("<<<M1853>>>" ++ check (runes_of_ascii "// top
-packet Frame {
-    // c2a
-    // c2b
-    u8 HK,
-    // c5
-    u8 BK,// c8a
-    // c8b
-    u8 TK,// c11a
-    // c11b
-    match HK as Hdr {
-        // c16
-        1 : HdrA,
-        2 : HdrB,
-        // c24a
-        // c24b
-    },
-    // c26
-    match BK as Body {
-        // c31
-        1 : BodyA,
-        // c35
-        2 : BodyB,
-    },// c41
-    match TK as Trl {
-        // c46a
-        // c46b
-        1 : TrlA,
-        // c50a
-        // c50b
-    },// c52a
-    // c52b
-}// c53a
-
-// c53b
-packet HdrA {
-    u8 a,// c59
-}// c60
-
-packet HdrB {
-    // c63a
-    // c63b
-    u16 b,// c66
-}// c67
-
-packet BodyA {
-    // c70a
-    // c70b
-    u32 c,
-}// c74
-
-packet BodyB {
-    // c77
-    u64 d,// c80a
-    // c80b
-}// c81a
-
-// c81b
-packet TrlA {
-    // c84
-    u8 e,
-    // c87
-}// c88a
-
-// c88b
-root packet Msg {
-    Frame,// c94a
-    // c94b
-    u8 x,// c97a
-    // c97b
+Eval vm_compute in ("<<<M70>>>" ++ check (runes_of_ascii "packet pack { @lengthOf(
+Foo
+    // c
+    )
+    asx @lengthOf( _x ) /// triple
+, u8	x_y_z `two words` ,repeat
+    zchar[0
+    ] roots `
+`
+    // `tick` ""quote"" 'q'
+    , lengthOf @calculatedFrom( ""abc""
+) ,
+@tag( 3 ) @rightPad	( ' ')@calculatedFrom(
+""1""
+//x
+// " ++ [27880; 37322]%N ++ runes_of_ascii "
+)
+repeat uint64 i64_ // trailing space 
+`say ""hi""` // @lengthOf(
+,	@tag( 007 ) match roots as float {	""a	b""
+    : lengthOf,
+    [1, // @lengthOf(
+""\n""
+,
+""a\""b"" , ""\" ++ [233]%N ++ runes_of_ascii """ ,  ""1"",
+    42 ]: msg_type, """ ++ [128512]%N ++ runes_of_ascii """: Foo} ,T//x
+{
+    match
+Header
+as trueish
+{ [
+// `tick` ""quote"" 'q'
+// @lengthOf(
+0 , 3// @lengthOf(
+, ""{,}"" ,
+""1"" ,
+00  ,
+0123456789
+,
+    ""// no comment"" ]
+:As
+    , }
+    , } , repeat char[
+    10
+]
+o `
+`
+, @calculatedFrom(
+    //
+    ""`tick`"" //x
+) repeat crc {
+    repeatCount o ,
+    u8x
+As, } ,
+} packet pack{@calculatedFrom( """ ++ [233]%N ++ runes_of_ascii "t" ++ [233]%N ++ runes_of_ascii """ )  u32 f32a
+,
 }
-// c98")).
+    MetaData float
+{u32 options1 , }
+packet
+f32a { }
+")).
 Eval vm_compute in ("<<<M362>>>" ++ check (runes_of_ascii "MetaData len
 {i8 _x
     //	t
@@ -462,702 +518,824 @@ Packet =
 true
 ;}
 ")).
-Eval vm_compute in ("<<<M1358>>>" ++ check (runes_of_ascii "// top
-options // c0a
-  // c0b
-{ // c1a
-  // c1b
-LittleEndian = false ;
-    // c5
-StringPrefixLenType =
-    // c7
-u16 ; // c9
-} // c10
-packet
-    // c11
-Heartbeat { // c13
-@rightPad // c14
-( // c15a
-  // c15b
-'0' ) // c17a
-  // c17b
-char[ 7 // c19a
-  // c19b
-] seqNo // c21a
-  // c21b
-, // c22a
-  // c22b
-uint64 // c23a
-  // c23b
-Tail // c24a
-  // c24b
-, i16 // c26
-Flags // c27a
-  // c27b
-, u16
-    // c29
-msgKind // c30
-, // c31a
-  // c31b
+Eval vm_compute in ("<<<M1935>>>" ++ check (runes_of_ascii "root packet As {
 }
-    // c32
-root // c33a
-  // c33b
-packet // c34
-Reject
-    // c35
-{ // c36a
-  // c36b
-zchar[ 3 ] // c39a
-  // c39b
-tag7 // c40
-,
-    // c41
-repeat // c42
-Heartbeat // c43a
-  // c43b
-, // c44
-repeat // c45a
-  // c45b
-string
-    // c46
-clOrdID // c47a
-  // c47b
-, // c48
-} // c49
-")).
-Eval vm_compute in ("<<<M184>>>" ++ check (runes_of_ascii "packet options1{@leftPad	( '0' )	@rightPad ( // a // b
-'\x00'
-) @tag(
-255
-) /// triple
-repeat string As `
-`,
-@calculatedFrom(
-"""" )@calculatedFrom(//x
-""x y"" )
-a1
-{ Foo {trueish { tag
-@lengthOf(  i8i8 ) `doc`
-, }
-, zchar[
-00 ] f32a @lengthOf( calculatedFrom) , repeat
-zchar[ 1
-    ] stringy`{ , }`
-    , },uint64  repeatCount	@lengthOf(// `tick` ""quote"" 'q'
-asx
-    ) , char[ 42
-] lengthOf @calculatedFrom(// c
-""packet""), char[ 10 ] calculatedFrom @lengthOf( BodyLength ), } ,
-asx`// not a comment`,  } options { matchKey =""" ++ [128512]%N ++ runes_of_ascii """ falsey = ""a\""b"" ; A // a // b
-= ""CRC32"" msg_type
-    =
-    //x
-    """ ++ [233]%N ++ runes_of_ascii "t" ++ [233]%N ++ runes_of_ascii """	; } MetaData o//	t
-{
-} packet
-Pad{  }")).
-Eval vm_compute in ("<<<M260>>>" ++ check (runes_of_ascii "packet metadata{ @rightPad
-    (	) zchar[
-//	t
-// `tick` ""quote"" 'q'
-0123456789] i64_
-    // @lengthOf(
-    @calculatedFrom( ""\n"" ) , @leftPad (
-    ' '// " ++ [27880; 37322]%N ++ runes_of_ascii "
-) zchar[ // `tick` ""quote"" 'q'
-255
-]
-    MetaDataX `{ , }`// a // b
-, @rightPad (
-' ' )@calculatedFrom(""abc"" ) // " ++ [128512]%N ++ runes_of_ascii " emoji
-@lengthOf(
-matchKey
-// `tick` ""quote"" 'q'
-// `tick` ""quote"" 'q'
-)
-repeat char[ 42 ] packetx // packet A { u8 x, }
-`" ++ [233]%N ++ runes_of_ascii "` ,  trueish@calculatedFrom( ""packet"" )
-`a\` , matchKey int `" ++ [28040; 24687; 31867; 22411]%N ++ runes_of_ascii "` ,	@tag(
-    // c
-    0
-) len{ char[65535 ] Header,
+
+MetaData Pad {
+    string metadata `// not a comment`,
 }
-,@lengthOf( f32a ) zchar[	10  ]
-    trueish `crlf
-line` ,  }
-")).
-Eval vm_compute in ("<<<M1364>>>" ++ check (runes_of_ascii "options {
-    StringPrefixLenType = u8;
-    ArrayPrefixLenType = u8;
-    FixedStringPadFromLeft = false;
-    FixedStringPadChar = ' ';
-}
-packet Ack {
-    char[] tag7,
-}
-packet Reject {
-    InSym61 {
-        repeat Ack,
-        zchar[4] f1,
+
+packet metadata {
+    string charz `a\`,
+    @leftPad(' ')
+    pack @lengthOf(x_y_z),
+    @calculatedFrom(""packet"")
+    match crc as chars {
+        [""packet"", 7] : repeatCount,
     },
-}
-packet Logout {
-    char[4] clOrdID,
-}
-root packet Cancel {
-    @leftPad(' ') char[10] price,
-    u8 x,
-    u32 venue @lengthOf(Body),
-    match x as Body {
-        [92, 175] : Logout,
-        26 : Reject,
-        144 : Ack,
+    Pad @lengthOf(matchKey),
+    @calculatedFrom(""\n"")
+    int64 Z9_ @lengthOf(_x),
+    @lengthOf(repeatCount)
+    repeat float {
+        u128 @lengthOf(zchar),
+        u8 crc,
     },
-    u16 count @calculatedFrom(""CRC32""),
+    int64 pack,
+    u128 `it's`,
+    repeat i32 T,//	t
+    @tag(00)
+    rootA @lengthOf(float),
 }
-")).
-Eval vm_compute in ("<<<M193>>>" ++ check (runes_of_ascii "
-root packet lengthOf{
-    char[ 3 ] Pad ,	@rightPad
-    (  '0'
-)
-    crc `doc` ,i32 //x
-uint8x
-,	zchar { match Logon  as int { [ 0 , """ ++ [233]%N ++ runes_of_ascii "t" ++ [233]%N ++ runes_of_ascii """] :o , ""// no comment"" :len ,
-} , asx
-{
-    //x
-    char[	10 ]
-u128 // a // b
-@lengthOf(  x_y_z)`say ""hi""`, }
-/// triple
-//
-, char[
-1 ] A, u// c
-chars
-    `` , }, repeat matchKey
-{ //x
-string trueish@calculatedFrom(
-    ""a	b""  )  , repeat
-    // packet A { u8 x, }
-    i8 msg_type `it's` ,	} , /// triple
+
+MetaData Header {
+    u32 u,
+    string A `crlf
+    line`,
+    u16 roots `a\`,
+    int16 chars,
 }
-packet float { }")).
-Eval vm_compute in ("<<<M1940>>>" ++ check (runes_of_ascii "// top
-MetaData
-        // c0
-  leftPad 
 
-// c1
-    { 
-      // c2
-  chars
-	    // c3
-	MetaDataX  
-  // c4
-
-, 
-    // c5
-  } 
-    // c6
-packet 
-    // c7
-  repeatCount
-
-// c8
-  {
-// c9
-
-char[  
-      // c10
-		255 
-      // c11
-	] 
-  // c12
-  uint8x
-
-// c13
-		`" ++ [233]%N ++ runes_of_ascii "` 
-
-    // c14
-
-,
-    // c15
-		}
-
-    // c16
-  	MetaData 
-// c17
-  pack
-        // c18
-
-{ 
-  // c19
-    As
-// c20
-
-Foo  
-  // c21
-, 
-// c22
-
-}  
-  // c23
-")).
-Eval vm_compute in ("<<<M303>>>" ++ check (runes_of_ascii "  packet
-    tag{ } packet
-    //
-    packetx { @calculatedFrom( ""x y""
-    )@tag(
-    42 )
-@lengthOf(
-    As  ) char a1`two words` ,
-    @leftPad
-(
-    '\x00' )
-    @tag(10)
-@lengthOf( u)
-    char[] falsey // " ++ [128512]%N ++ runes_of_ascii " emoji
-,
-    // " ++ [27880; 37322]%N ++ runes_of_ascii "
-    }//
-MetaData
-f32a {
-    string u128 , roots
-    stringy , Header body,
-    float options1
-    //	t
-    `it's`
-    ,	i8i8 options1
-`" ++ [28040; 24687; 31867; 22411]%N ++ runes_of_ascii "`
-    ,
+packet repeatCount {
+    repeat char[65535] x `line1
+    line2`,
 }")).
-Eval vm_compute in ("<<<M1645>>>" ++ check (runes_of_ascii "
-root
-    packet
-    Logon 
+Eval vm_compute in ("<<<M1548>>>" ++ check (runes_of_ascii "MetaData packetx {
+    zchar[7] leftPad `// not a comment`,
+}
+
+packet i64_ {
+    @calculatedFrom("""")
+    // trailing space 
+    // c
+    @lengthOf(x_y_z)
+    @tag(00)
+    repeatCount @calculatedFrom(""1""),
+}
+
+packet falsey {
+    int16 _x @calculatedFrom(""it's""),
+}// @lengthOf(
+
+root packet matchKey {
+    repeat u32 Pad `" ++ [233]%N ++ runes_of_ascii "`,
+    zchar[7] leftPad,
+    match chars as lengthOf {
+        1 : o,
+        42 : chars,
+    },
+    repeat zchar[255] a1,
+    matchKey Packet,
+    f32 tag,
+    // @lengthOf(
+    // trailing space 
+    @calculatedFrom(""a\""b"")
+    @leftPad(' ')
+    @lengthOf(T)
+    stringy @lengthOf(o),
+    packetx i64_,
+}
+/// triple")).
+Eval vm_compute in ("<<<M1801>>>" ++ check (runes_of_ascii "
+options{ LittleEndian=
+    false
+
+; ArrayPrefixLenType =	u8 ; 
+FixedStringPadFromLeft
+	=
+    true;	FixedStringPadChar =	'0'
+
+;} packet	Heartbeat
+    {	string
+lastPx
+, uint8
+Qty
+    ,	i64
+	Acct,
+    char[4
+] Ref
+,  } packet  Fill
+	{
+uint8	Ref ,
+
+    Heartbeat
+
+,
+
+    f32 OrderId , repeat f32 x
+,
+	} root packet  Order
 {
-@rightPad
-    ( // @lengthOf(
 
-  '0' )
-	repeat 
-charz  // " ++ [27880; 37322]%N ++ runes_of_ascii "
+zchar[
+2	] 
+OrderId,
+zchar[ 2	] Acct 
+,
+zchar[
+	1
+]
 
-  { 	 // " ++ [128512]%N ++ runes_of_ascii " emoji
+    Note
+	,zchar[9  ] Qty
+	,
+    string
+    price, string	tag7,
+	u32
+    x ,
+
+match
+x as
+Body	{ 123: 
+Fill
+
+,112:	Heartbeat
+	, }
+
+,u32
+	seqNo	@calculatedFrom(
+
+    ""CR\
+C32""
+    ) 
+,}
+")).
+Eval vm_compute in ("<<<M1678>>>" ++ check (runes_of_ascii "
+MetaData
+
+falsey {	} 
+root
+	packet  // `tick` ""quote"" 'q'
+o 
+{ @tag( 3 // " ++ [128512]%N ++ runes_of_ascii " emoji
+	)@calculatedFrom(
+
+""""
+
+)
+    @lengthOf( pack
+    )char[65535 ] 
+falsey @lengthOf( falsey )  ,
+
+}
+
+    root
+
+packet  roots
+    {  @lengthOf(  chars )
+match
+
+    Logon
+as chars	{
+""`tick`"": 
+charz  
+  // packet A { u8 x, }
+""a\\"" :
 
 Z9_
 
-    `{ , }`
-    ,string string_
-`say ""hi""`,
-
-repeat
-
-int8 
-rootA
-    , match
-    Foo as  pack	{  [
-
-    42
-    // c
-	/// triple
-		, 0
-    ]
-: u,""a\""b""
+007
+	:
+trueish
+""CRC32""
 :
+	msg_type
+	,  [ 3 , 3 // `tick` ""quote"" 'q'
+      ,	00 ,	4294967296 ,
 
-int
-	,	}
+0 ,	7
+, //
+  ""x y""
 
-// c
-	// `tick` ""quote"" 'q'
-    	,
-    }
-, 
-}
-")).
-Eval vm_compute in ("<<<M57>>>" ++ check (runes_of_ascii "packet	tag { }
-packet falsey
-    { string charz @lengthOf(
-    zchar ) ,
-string // trailing space 
-u @calculatedFrom( """ ++ [233]%N ++ runes_of_ascii "t" ++ [233]%N ++ runes_of_ascii """	) `// not a comment`
-, @leftPad( '0' )
-char[] leftPad @calculatedFrom(
-    ""a	b"")`// not a comment` , @calculatedFrom(
-    ""`tick`"" )
-    @lengthOf(roots
-) repeat MetaDataX
-, }
-
-")).
-Eval vm_compute in ("<<<M94>>>" ++ check (runes_of_ascii "MetaData chars{ uint64	A, msg_type asx
-    // c
-    , Z9_  a1,
-    stringy
-    i64_ //
-`doc` , }packet
-/// triple
-// a // b
-x_y_z {	} options {
-float // c
-=float32 rootA= false ;
-repeatCount// c
-=  char[ 10 ]
-; }	packet Z9_{zchar[007 ]
+,""\" ++ [233]%N ++ runes_of_ascii """ 
     //	t
-    charz // c
-,
-} //x")).
-Eval vm_compute in ("<<<M1306>>>" ++ check (runes_of_ascii "// top
-packet // c0a
-  // c0b
-orderItem // c1a
-  // c1b
-{ u8 // c3
-a // c4
-, // c5a
-  // c5b
-}
-    // c6
-root packet // c8a
-  // c8b
-newOrder // c9a
-  // c9b
-{ orderItem // c11
-, u8
-    // c13
-x // c14a
-  // c14b
-,
-    // c15
-} // c16
-")).
-Eval vm_compute in ("<<<M1585>>>" ++ check (runes_of_ascii "packet A {
-    match k as n {
-        ""x\
-                y"" : B,
-        [""x\
-                y"", 1] : C,
-        [
-            1, 2, 3, 4, 5,
-            ""x\
-                        y""
-        ] : D,
-    },
-}")).
-Eval vm_compute in ("<<<M1325>>>" ++ check (runes_of_ascii "
-root	packet
-	Frame { u8
-    K , 
-Logon
-	first  ,
-match
-
-    K 
-as
-Body{1 : Logon,
-    2 :
-Logout  ,
-	}	,
-} 
-packet
-Logon
-	{
-string user ,
-} packet
-Logout
-
-{ u16 
-reason , }")).
-Eval vm_compute in ("<<<M60>>>" ++ check (runes_of_ascii "root packet _x
-{ uint32 trueish @calculatedFrom( ""1"" ) `crlf
-line`
-,  }
-    //
-    packet	Header { repeat u64
-stringy `// not a comment` , float32  msg_type ,}
-")).
-Eval vm_compute in ("<<<M537>>>" ++ check (runes_of_ascii "packet uint8x
-{ match pack
-    as msg_type	{
-    0123456789 :	float
-}
-,
-} packet //	t
-a1
-    { } o'\x01'ptions {packetx
-    = '\x00'	; u128= ""a	b""  ; }
-")).
-Eval vm_compute in ("<<<M436>>>" ++ check (runes_of_ascii "packet uint8x
-{ match pack
-    as msg_type	{
-    0123456789 : :	float
-}
-,
-} packet //	t
-a1
-    { } options {packetx
-    = '\x00'	; u128= ""a	b""  ; }
-")).
-Eval vm_compute in ("<<<M1706>>>" ++ check (runes_of_ascii "packet Logon {
-    metadata @calculatedFrom(""a\\""),
-    @tag(42)
-    // " ++ [128512]%N ++ runes_of_ascii " emoji
-    @tag(65535)
-    repeat u16 o `line1
-    line2`,
-}
-
-packet float {
-}")).
-Eval vm_compute in ("<<<M522>>>" ++ check (runes_of_ascii "packet uint8x
-{ match pack
-    as msg_type	{
-    0123456789 :	float
-}
-,
-} packet //	t
-a1
-    { } options {packetx
-    = '\x00'	; u128= ;  ""a	b"" }
-")).
-Eval vm_compute in ("<<<M700>>>" ++ check (runes_of_ascii "// @lengthOf(
-packet i8i8 { u128 o , }
-options { MetaDataX = true true;
-    BodyLength =""packet"" x_y_z= 007
-crc //x
-= ""abc"" ;
-    msg_type =
-i16 }")).
-Eval vm_compute in ("<<<M696>>>" ++ check (runes_of_ascii "// @lengthOf(
-packet i8i8 { u128 o , } }
-options { MetaDataX = true;
-    BodyLength =""packet"" x_y_z= 007
-crc //x
-= ""abc"" ;
-    msg_type =
-i16 }")).
-Eval vm_compute in ("<<<M721>>>" ++ check (runes_of_ascii "// @lengthOf(
-packet i8i8 { u128 o , }
-options { MetaDataX = true;
-    BodyLength =""packet"" x_y_z= 007
-crc //x
-= ""abc"" msg_type
-    ; =
-i16 }")).
-Eval vm_compute in ("<<<M1482>>>" ++ check (runes_of_ascii "
-packet	A	{
-
-    match
-k	as
-    n  {[	""a"" ,  22
-	,
-    ""c c""  ,
-	4
-
-    ,  ""e""
-,  66  ,""g"" ,
-8 
-,	""i""
-,	10 ]	:
-B
-,  2 :
-C
-
-} ,  } ")).
-Eval vm_compute in ("<<<M1650>>>" ++ check (runes_of_ascii "packet A {
-    u8 a,
-}
-
-packet B {
-    u16 b,
-}
-
-root packet P {
-    u8 K,
-    match K as M {
-        1 : A,
-        1 : B,
-    },
-}")).
-Eval vm_compute in ("<<<M937>>>" ++ check (runes_of_ascii "packet A {
-    u16 len @lengthOf(body) `a
-    b
-  c`,
-    u32 crc @calculatedFrom(""CRC32"") `a
-    b
-  c`,
-    string body,
-}")).
-Eval vm_compute in ("<<<M1147>>>" ++ check (runes_of_ascii "MetaData leftPad { // c
-chars MetaDataX , } packet repeatCount { char[ 255 ] uint8x `" ++ [233]%N ++ runes_of_ascii "` , } MetaData pack { As Foo , }")).
-Eval vm_compute in ("<<<M1179>>>" ++ check (runes_of_ascii "MetaData leftPad { chars MetaDataX , } packet repeatCount { char[ 255 ] uint8x `" ++ [233]%N ++ runes_of_ascii "` , } MetaData pack // c
-{ As Foo , }")).
-Eval vm_compute in ("<<<M1844>>>" ++ check (runes_of_ascii "packet A 
-{ 
-match
-k
-    as	n
-    {
-
-[
-
-1	,
-
-""bb""
+	] 
+:  metadata
 
     ,
-	007
-
-,
-""d""
-
-    , 
-5 ]
-    :
-    B , 2 : C
-	}  ,	}
-
-")).
-Eval vm_compute in ("<<<M911>>>" ++ check (runes_of_ascii "packet A {
-  match k as n {
-    [""a"", 22, ""c c"", 4, ""e"", 66, ""g"", 8, ""i"", 10, ""k"", 12] : B
-    2 : C
-  },
-}")).
-Eval vm_compute in ("<<<M888>>>" ++ check (runes_of_ascii "packet A {
-  match k as n {
-    [""a"", ""bb"", 007, ""d"", ""e"", 66, ""g"", ""h"", 9, ""j""] : B,
-    2 : C
-  },
-}")).
-Eval vm_compute in ("<<<M656>>>" ++ check (runes_of_ascii "// @lengthOf(
-packet i8i8 { u128 o , }
-options { MetaDataX = true;
-    BodyLength =""packet"" x_y_z")).
-Eval vm_compute in ("<<<M389>>>" ++ check (runes_of_ascii "root packet SimpleMessage {
-    uint16 MsgType `" ++ [28040; 24687; 31867; 22411]%N ++ runes_of_ascii "`,
-    string JsonBody `Json" ++ [23383; 31526; 20018; 28040; 24687; 20307]%N ++ runes_of_ascii "`,
-}")).
-Eval vm_compute in ("<<<M639>>>" ++ check (runes_of_ascii "
-packet
-    asx {match u128 as lengthOf
-{
-//	t
-// `tick` ""quote"" 'q'
-255 : x ,
-    } ,	"" }")).
-Eval vm_compute in ("<<<M604>>>" ++ check (runes_of_ascii "
-packet
-    asx {match u128 as lengthOf
-{
-//	t
-// `tick` ""quote"" 'q'
-255 : , x
-    } ,	}")).
-Eval vm_compute in ("<<<M1458>>>" ++ check (runes_of_ascii "
-root	packet
-    P { u16	a
-
-,
-
-    u32 Sum @calculatedFrom(
-
-    ""CR\
-C32"" 
-)
-, }
-")).
-Eval vm_compute in ("<<<M116>>>" ++ check (runes_of_ascii "root packet Z9_ { repeat lengthOf
-pack , repeat
-    A {	repeatCount`doc` ,
-    },	}")).
-Eval vm_compute in ("<<<M916>>>" ++ check (runes_of_ascii "packet A { Inner { match k as n { [1,22,007,4,5,66,7,8,9,10,11,12] : B, }, }, }")).
-Eval vm_compute in ("<<<M818>>>" ++ check (runes_of_ascii "packet A {
-  match k as n {
-    [1, ""bb"", 007, ""d"", 5] : B
-    2 : C
-  },
-}")).
-Eval vm_compute in ("<<<M1879>>>" ++ check (runes_of_ascii "root
-packet
-
-    x {
-    roots
-
-@calculatedFrom( ""a\""b"" )
-,
-    }
-")).
-Eval vm_compute in ("<<<M787>>>" ++ check (runes_of_ascii "packet A {
-  match k as n {
-    [1, 22, 007] : B,
-    2 : C
-  },
-}")).
-Eval vm_compute in ("<<<M151>>>" ++ check (runes_of_ascii "packet
-    stringy
-{ } MetaData crc
-/// triple
+""a	b""
 //x
-{ u16 o ,}")).
-Eval vm_compute in ("<<<M1713>>>" ++ check (runes_of_ascii "options {
-    a = ""x\
-        y"";
-    b = ""x\
-        y""
-}")).
-Eval vm_compute in ("<<<M1220>>>" ++ check (runes_of_ascii "packet body { i32 f32a `{ , }` , } options { }
-// c
+  // " ++ [27880; 37322]%N ++ runes_of_ascii "
+: crc}
+	, }")).
+Eval vm_compute in ("<<<M1681>>>" ++ check (runes_of_ascii "options
+    {	// c1a
+
+  // c1b
+	LittleEndian  
+  // c2
+  = 	 // c3
+	true  // c4
+
+  ; }	// c6a
+		// c6b
+  packet
+
+    B
+	{  u8	// c10a
+// c10b
+a 
+      // c11
+  , // c12a
+// c12b
+	string	// c13
+s  // c14
+
+,
+	}	// c16
+  root // c17a
+    // c17b
+      packet
+
+// c18
+    P  // c19
+    {
+
+u16 // c21
+	L @lengthOf(
+    B
+)// c25a
+	// c25b
+
+,  // c26a
+
+// c26b
+B  // c27a
+	// c27b
+, 
+  // c28
+		u8 
+  // c29
+    t 	 // c30
+		, // c31
+
+  }	// c32a
+  // c32b")).
+Eval vm_compute in ("<<<M374>>>" ++ check (runes_of_ascii "MetaData BodyLength { zchar[ 65535 ]	As `crlf
+line`
+, u16 charz , body len,
+zchar msg_type ,uint64 metadata
+,}
+root packet //
+matchKey
+    {
+repeat i8i8  `{ , }` ,
+} MetaData a1 { i8i8 Pad`it's`	,
+// trailing space 
+// `tick` ""quote"" 'q'
+int64
+    // " ++ [128512]%N ++ runes_of_ascii " emoji
+    roots `doc` ,
+Foo BodyLength `u8 x,` , } packet	_x
+{ lengthOf
+    {
+pack `" ++ [28040; 24687; 31867; 22411]%N ++ runes_of_ascii "` ,
+string_ // @lengthOf(
+, repeat //
+rootA len , zchar[ 1
+] u8x,} , }
 ")).
-Eval vm_compute in ("<<<M1520>>>" ++ check (runes_of_ascii "packet body {
-    i32 f32a `{ , }`,
+Eval vm_compute in ("<<<M1139>>>" ++ check (runes_of_ascii "// top
+MetaData
+    // c0
+leftPad
+    // c1
+{
+    // c2
+chars
+    // c3
+MetaDataX
+    // c4
+,
+    // c5
+}
+    // c6
+packet
+    // c7
+repeatCount
+    // c8
+{
+    // c9
+char[
+    // c10
+255
+    // c11
+]
+    // c12
+uint8x
+    // c13
+`" ++ [233]%N ++ runes_of_ascii "`
+    // c14
+,
+    // c15
+}
+    // c16
+MetaData
+    // c17
+pack
+    // c18
+{
+    // c19
+As
+    // c20
+Foo
+    // c21
+,
+    // c22
+}
+    // c23
+")).
+Eval vm_compute in ("<<<M1337>>>" ++ check (runes_of_ascii "options 
+{
+
+LittleEndian	=
+
+    true
+; StringPrefixLenType
+=
+u16 ;
+FixedStringPadChar
+	=
+' ' 
+; } packet
+Logon
+{
+
+@leftPad	( '0') char[ 10 ]
+
+tag7
+	,
+}
+root packet
+
+    Ack	{ int32
+Px ,uint16	count ,
+
+string Qty	,
+    string
+    OrderId 
+,string
+Flags, u8
+    x	,  match
+x
+	as
+    Body{
+[	58
+,  169  ] :	Logon
+, } 
+, } ")).
+Eval vm_compute in ("<<<M1310>>>" ++ check (runes_of_ascii "
+packet
+A
+	{
+
+u8 a
+	, } packet
+    B 
+{ u16 b
+,
+	} packet
+    C 
+{	u32 
+c,
+
+}
+	root
+    packet
+
+    M
+	{u16
+
+    Kc ,
+u16 Kb
+	, u16
+    Ka
+
+,
+match  Kc
+
+    as
+X
+	{9
+:A
+
+    ,
+10
+:B  , } ,match	Kb  as
+Y{	2
+: C
+,  1 :A
+
+,
+
+} ,  match	Ka
+    as
+Z {
+1 :
+B	, 
+}, A 
+,B
+, C
+,
+
+    }")).
+Eval vm_compute in ("<<<M1680>>>" ++ check (runes_of_ascii "// top
+options {
+    // c1
+    f32a = 0
+    // c4
+}
+
+// c5
+packet trueish {
+    // c8
+}
+
+// c9
+MetaData _x {
+    // c12
+    char[0123456789] zchar,
+    // c17
+    string crc,
+    // c20
+    char[1] options1,
+    // c25
+    uint8 repeatCount,
+    // c28
+}
+// c29")).
+Eval vm_compute in ("<<<M1247>>>" ++ check (runes_of_ascii "options { LittleEndian // c2a
+  // c2b
+= // c3
+true
+    // c4
+; } root
+    // c7
+packet P // c9a
+  // c9b
+{ repeat char // c12a
+  // c12b
+cs // c13a
+  // c13b
+, // c14a
+  // c14b
+u8
+    // c15
+x
+    // c16
+, // c17
+}
+    // c18
+")).
+Eval vm_compute in ("<<<M1421>>>" ++ check (runes_of_ascii "root packet int {
+    f32a @calculatedFrom(""packet"") `
+    `,
 }
 
 options {
-}")).
-Eval vm_compute in ("<<<M921>>>" ++ check (runes_of_ascii "MetaData M {
-    u8 x `a
-b`,
-    T t `a
-b`,
-}")).
-Eval vm_compute in ("<<<M1938>>>" ++ check (runes_of_ascii "root packet A {
-    u8 x `a
-        b`,
-}")).
-Eval vm_compute in ("<<<M1407>>>" ++ check (runes_of_ascii "
-options
+    rootA = ""\" ++ [233]%N ++ runes_of_ascii """;
+}
 
-    { 	 // a // b
-  }
-")).
-Eval vm_compute in ("<<<M1932>>>" ++ check (runes_of_ascii "packet A {
-    u8 x `d" ++ [11]%N ++ runes_of_ascii "`,// c" ++ [11]%N ++ runes_of_ascii "
+packet i8i8 {
+    // trailing space 
+    uint8 uint8x @lengthOf(string_),
+    i32 tag @lengthOf(Logon),
 }")).
-Eval vm_compute in ("<<<M1524>>>" ++ check (runes_of_ascii "root
+Eval vm_compute in ("<<<M309>>>" ++ check (runes_of_ascii "packet
+    // `tick` ""quote"" 'q'
+    _x {//
+repeat zchar[ 1 ] metadata
+    ,@leftPad
+    ( ' ' ) @lengthOf( T )@lengthOf(
+Z9_ )
+    char[] As// @lengthOf(
+,string f32a  , }
+")).
+Eval vm_compute in ("<<<M1398>>>" ++ check (runes_of_ascii "
+
+  packet 
+A {
+
+    match
+
+    k
+    as n
+
+    {
+	[  ""a""
+
+,
+22 ,
+
+""c c""
+
+,
+    4, ""e""
+
+, 66 
+,
+    ""g""
+
+,
+    8  ,""i""
+
+    ]
+: B
+
+    2:
+
+C
+} 
+, }
+")).
+Eval vm_compute in ("<<<M518>>>" ++ check (runes_of_ascii "packet uint8x
+{ match pack
+    as msg_type	{
+    0123456789 :	float
+}
+,
+} packet //	t
+a1
+    { } options {packetx
+    = '\x00'	; u128 true ""a	b""  ; }
+")).
+Eval vm_compute in ("<<<M526>>>" ++ check (runes_of_ascii "packet uint8x
+{ match pack
+    as msg_type	{
+    0123456789 :	float
+}
+,
+} packet //	t
+a1
+    { } options {packetx
+    = '\x00'	; u128= ""a	b""  ; ; }
+")).
+Eval vm_compute in ("<<<M428>>>" ++ check (runes_of_ascii "packet uint8x
+{ match pack
+    as msg_type	}
+    0123456789 :	float
+}
+,
+} packet //	t
+a1
+    { } options {packetx
+    = '\x00'	; u128= ""a	b""  ; }
+")).
+Eval vm_compute in ("<<<M450>>>" ++ check (runes_of_ascii "packet uint8x
+{ match pack
+    as msg_type	{
+    0123456789 :	float
+}
+
+} packet //	t
+a1
+    { } options {packetx
+    = '\x00'	; u128= ""a	b""  ; }
+")).
+Eval vm_compute in ("<<<M493>>>" ++ check (runes_of_ascii "packet uint8x
+{ match pack
+    as msg_type	{
+    0123456789 :	float
+}
+,
+} packet //	t
+a1
+    { } options {f64
+    = '\x00'	; u128= ""a	b""  ; }
+")).
+Eval vm_compute in ("<<<M664>>>" ++ check (runes_of_ascii "// @lengthOf(
+packet i8i8 { u128 o , }
+options { MetaDataX = true;
+    BodyLength =""packet"" packet= 007
+crc //x
+= ""abc"" ;
+    msg_type =
+i16 }")).
+Eval vm_compute in ("<<<M699>>>" ++ check (runes_of_ascii "// @lengthOf(
+packet i8i8 { a" ++ [769]%N ++ runes_of_ascii "b o , }
+options { MetaDataX = true;
+    BodyLength =""packet"" x_y_z= 007
+crc //x
+= ""abc"" ;
+    msg_type =
+i16 }")).
+Eval vm_compute in ("<<<M1831>>>" ++ check (runes_of_ascii "  packet
+    A
+    {
+
+match 
+k as
+    n
+{
+
+[ ""a""  ,
+
+""bb""
+    ,
+	007
+
+    , ""d""
+	,
+""e""
+,66
+,	""g""
+
+,
+""h"" ]
+
+    :
+B
+
+, 2
+:C }
+, }
+")).
+Eval vm_compute in ("<<<M1450>>>" ++ check (runes_of_ascii "MetaData leftPad {
+    // c
+    chars MetaDataX,
+}
+
+packet repeatCount {
+    char[255] uint8x `" ++ [233]%N ++ runes_of_ascii "`,
+}
+
+MetaData pack {
+    As Foo,
+}")).
+Eval vm_compute in ("<<<M1390>>>" ++ check (runes_of_ascii "MetaData leftPad {
+    chars MetaDataX,
+}
+
+packet repeatCount {
+    char[255] uint8x `" ++ [233]%N ++ runes_of_ascii "`,
+}
+
+MetaData pack {
+    As Foo,
+}")).
+Eval vm_compute in ("<<<M1153>>>" ++ check (runes_of_ascii "MetaData leftPad { chars MetaDataX , // c
+} packet repeatCount { char[ 255 ] uint8x `" ++ [233]%N ++ runes_of_ascii "` , } MetaData pack { As Foo , }")).
+Eval vm_compute in ("<<<M1185>>>" ++ check (runes_of_ascii "MetaData leftPad { chars MetaDataX , } packet repeatCount { char[ 255 ] uint8x `" ++ [233]%N ++ runes_of_ascii "` , } MetaData pack { As Foo // c
+, }")).
+Eval vm_compute in ("<<<M914>>>" ++ check (runes_of_ascii "packet A {
+  match k as n {
+    [""a"", ""bb"", 007, ""d"", ""e"", 66, ""g"", ""h"", 9, ""j"", ""k"", 12] : B,
+    2 : C
+  },
+}")).
+Eval vm_compute in ("<<<M1400>>>" ++ check (runes_of_ascii "packet A
+	{
+	match	k
+
+as n{[  ""a""  , ""bb"" ,
+	""c c""
+,
+""d""	,""e"",
+
+""f""
+,
+""g""
+] : 
+B
+
+,
+2 : C
+}
+,
+
+    }")).
+Eval vm_compute in ("<<<M1902>>>" ++ check (runes_of_ascii "
+root
 
     packet
-chars {
-}
-")).
-Eval vm_compute in ("<<<M217>>>" ++ check (runes_of_ascii "root	packet falsey
+SimpleMessage {uint16	MsgType
+	`" ++ [28040; 24687; 31867; 22411]%N ++ runes_of_ascii "`
+,string
+	JsonBody`Json" ++ [23383; 31526; 20018; 28040; 24687; 20307]%N ++ runes_of_ascii "`
+
+,
+
+    }")).
+Eval vm_compute in ("<<<M855>>>" ++ check (runes_of_ascii "packet A {
+  match k as n {
+    [""a"", ""bb"", ""c c"", ""d"", ""e"", ""f"", ""g"", ""h""] : B
+    2 : C
+  },
+}")).
+Eval vm_compute in ("<<<M1559>>>" ++ check (runes_of_ascii "packet A {
+    match k as n {
+        [""a"", ""bb"", 007, ""d"", ""e""] : B,
+        2 : C,
+    },
+}")).
+Eval vm_compute in ("<<<M631>>>" ++ check (runes_of_ascii "
+packet
+    asx {match u128 as lengthOf
 {
+//	t
+// `tick` ""quote"" 'q'
+255 %: x ,
+    } ,	}")).
+Eval vm_compute in ("<<<M878>>>" ++ check (runes_of_ascii "packet A {
+  match k as n {
+    [1, 22, 007, 4, 5, 66, 7, 8, 9, 10] : B,
+    2 : C
+  },
+}")).
+Eval vm_compute in ("<<<M1404>>>" ++ check (runes_of_ascii "packet A {
+    match k as n {
+        [""a"", 22, ""c c"", 4] : B,
+        2 : C,
+    },
+}")).
+Eval vm_compute in ("<<<M469>>>" ++ check (runes_of_ascii "packet uint8x
+{ match pack
+    as msg_type	{
+    0123456789 :	float
+}
+,
+} packet")).
+Eval vm_compute in ("<<<M835>>>" ++ check (runes_of_ascii "packet A {
+  match k as n {
+    [1, 22, ""c c"", 4, 5, ""f""] : B
+    2 : C
+  },
+}")).
+Eval vm_compute in ("<<<M1249>>>" ++ check (runes_of_ascii "packet Inner {
+    u8 a,
+}
+root packet P {
+    Inner ref_obj,
+    u8 x,
 }
 ")).
-Eval vm_compute in ("<<<M747>>>" ++ check (runes_of_ascii "true int16 u16 { f32a")).
-Eval vm_compute in ("<<<M244>>>" ++ check (runes_of_ascii "MetaData u128{} //x")).
-Eval vm_compute in ("<<<M1006>>>" ++ check (runes_of_ascii "packet A {
-}
-// c" ++ [8202]%N)).
-Eval vm_compute in ("<<<M974>>>" ++ check (runes_of_ascii "packet A {
-}// c ")).
-Eval vm_compute in ("<<<M1705>>>" ++ check (runes_of_ascii "packet x {
-}// c")).
-Eval vm_compute in ("<<<M1804>>>" ++ check (runes_of_ascii "// " ++ [27880; 37322]%N ++ runes_of_ascii "
- 
+Eval vm_compute in ("<<<M797>>>" ++ check (runes_of_ascii "packet A {
+  match k as n {
+    [""a"", ""bb"", 007] : B,
+    2 : C
+  },
+}")).
+Eval vm_compute in ("<<<M1671>>>" ++ check (runes_of_ascii "root packet P {
+    u16 a,
+    u32 Sum @calculatedFrom(""CRC32""),
+}")).
+Eval vm_compute in ("<<<M939>>>" ++ check (runes_of_ascii "MetaData M {
+    u8 x `a
+    b
+  c`,
+    T t `a
+    b
+  c`,
+}")).
+Eval vm_compute in ("<<<M1097>>>" ++ check (runes_of_ascii "packet A {
+    match k as n {
+        1 : B,// c
+    },
+}")).
+Eval vm_compute in ("<<<M1197>>>" ++ check (runes_of_ascii "// c
+packet body { i32 f32a `{ , }` , } options { }")).
+Eval vm_compute in ("<<<M1710>>>" ++ check (runes_of_ascii "  options
+{ a
+    =
+
+1 // c
+	b =2 ; 	 // d
+    }
 ")).
-Eval vm_compute in ("<<<M754>>>" ++ check (runes_of_ascii "Y )'")).
+Eval vm_compute in ("<<<M233>>>" ++ check (runes_of_ascii "MetaData _x { i64 u128	, Packet Header, } 	 ")).
+Eval vm_compute in ("<<<M1451>>>" ++ check (runes_of_ascii "packet	A  {@tag(	// a
+    	1)
+u8 x
+	,
+} ")).
+Eval vm_compute in ("<<<M1573>>>" ++ check (runes_of_ascii "// top
+packet x {
+    // c2
+}
+// c3")).
+Eval vm_compute in ("<<<M766>>>" ++ check (runes_of_ascii "Dr1UAAa-*U|u3S?xE-Vr&9^'H>gI<.E")).
+Eval vm_compute in ("<<<M1936>>>" ++ check (runes_of_ascii "
+
+  MetaData 
+// c
+u
+    { } ")).
+Eval vm_compute in ("<<<M1080>>>" ++ check (runes_of_ascii "options { a = 1 // a
+ ; }")).
+Eval vm_compute in ("<<<M1069>>>" ++ check (runes_of_ascii "// a// bpacket A {}")).
+Eval vm_compute in ("<<<M1128>>>" ++ check (runes_of_ascii "// c
+MetaData u { }")).
+Eval vm_compute in ("<<<M1017>>>" ++ check (runes_of_ascii "// c" ++ [8233]%N ++ runes_of_ascii "
+packet A {
+}")).
+Eval vm_compute in ("<<<M994>>>" ++ check (runes_of_ascii "packet A {
+}// c" ++ [5760]%N)).
+Eval vm_compute in ("<<<M46>>>" ++ check (runes_of_ascii "//x
+
+// a // b
+")).
+Eval vm_compute in ("<<<M1399>>>" ++ check (runes_of_ascii "
+// c" ++ [8192]%N ++ runes_of_ascii "
+")).
+Eval vm_compute in ("<<<M726>>>" ++ check (runes_of_ascii "
+	 ")).
